@@ -85,11 +85,12 @@ P["C06"] = dict(
     obligations=ob("JSight.Props.C06",
         ("Props.C06.C06_events_of_tree", "events of any valid text = events denoted by its tree (nesting, token spans, containers bracket to bracket)"),
         ("Props.C06.C06_spans", "every span inside the input, begin <= end"),
+        ("Props.C06.C06_rebuild", "the value (tree without layout) is recovered from events + token slices alone"),
         ("Props.C06.C06_nested", "events properly nested; closer pairs with the innermost opener and carries its offset"),
         ("Props.C06.C06_string_token", "RFC strings are scalar tokens"),
         ("Props.C06.C06_number_token", "RFC numbers are scalar tokens"),
         ("Props.C06.C06_key_token", "RFC strings are key tokens")) + ob("JSight.Props.C13",
-        ("Props.C13.evs_types", "the event-type sequence is a function of the tree without layout")),
+        ("JsonScan.evs_types", "the event-type sequence is a function of the tree without layout")),
     runs=[{"cmd": ["json-diff"]}, {"cmd": ["json-tprod"]}, {"cmd": ["schema-diff"]}, {"cmd": ["enum-diff"]}],
     partial="schema / enum scanner clone agreement: models validated bounded-exhaustively against the code, simulation not proved",
     level_text="Proof (JSON scanner): for every valid JSON tree, every layout and both modes the scanner model delivers exactly the events the tree denotes — properly nested, spans inside the input, literal/key spans = tokens, containers bracket to bracket (unbounded depth/width). Tie: events of real NextLexeme vs model on generated valid texts (plus rebuild-the-value-from-events against encoding/json), mutations, product-state exploration; schema and enum scanners: full event streams vs their Lean models, bounded-exhaustive over four alphabets + mutations.",
@@ -179,7 +180,7 @@ P["C13"] = dict(
     lean_targets=["JSight.Props.C13", "JSight.Props.C01"],
     obligations=ob("JSight.Props.C13",
         ("Props.C13.C13_whitespace_invariant", "two valid texts with the same tree modulo layout give the same event-type sequence"),
-        ("Props.C13.evs_types", "event types are a function of the stripped tree")) + ob("JSight.Props.C01",
+        ("JsonScan.evs_types", "event types are a function of the stripped tree")) + ob("JSight.Props.C01",
         ("Props.C01.C01_order_indep", "verdict invariant under property order in the document")),
     runs=[{"cmd": ["c13-metamorphic"]}, {"cmd": ["unquote-diff"]}, {"cmd": ["schema-diff"]}],
     partial="document whitespace and property order are theorems; escapes, line ends, comments, annotation spelling, rule order in text go through unquoting, the schema scanner and the loader: validated (metamorphic differential on the real code, scanner/unquote models)",
